@@ -29,7 +29,25 @@ destination and each current sink of that endpoint and to nothing else; a receiv
 data (scripted time-out, closed or unknown port) delivers nothing, sends nothing, raises nothing;
 spin(k) sends k values of each source to the source's own endpoint and to no other.
 Everything is compared after EVERY operation against what the endpoint doubles / sink callbacks
-actually recorded during that operation.
+actually recorded during that operation.  Receives are *observed* (what the endpoint's getData()
+handed to the hub is the truth about "message" vs "no data"); deliveries, source sends and return
+values of registration calls are *demanded*.
+
+The state-graph, random and UDP clauses append a fixed probe (a message on every endpoint, then one
+spin with a message waiting everywhere) so that an operation that answered correctly but left the
+rule tables wrong is seen too.  In a violation message, an op index >= len(case["ops"]) is a probe op.
+
+What the code documents and where the property text is stricter / different (the text wins):
+  * set*/delete* return True iff they changed a table, False for unknown names, None handles,
+    duplicates and absent rules -- same as the text.  There is no call that removes a sink or a source.
+  * spin(k): per iteration and per endpoint, first every source of the endpoint is called and its
+    value sent to that endpoint, then the endpoint is polled once if its name is a key of the
+    forwarding or sink table (also when its last rule was deleted: the message is consumed and
+    goes nowhere -- allowed by the text, labelled "spin polled endpoint without current rule").
+    spin(k<0) never returns and is not generated.
+  * getData's docstring promises (data, success); the code returns the data only.  Its return
+    value for a message is therefore not checked; None for "no data" is.
+  * before the fix, getData passed a no-data receive (None) on to every destination and sink.
 """
 import collections
 import errno
@@ -61,8 +79,8 @@ ASSUMPTIONS = [
     "hub.getData(name) receives on the named endpoint only and at most once, and (doubles) does receive a message "
     "that is waiting on an open endpoint; which endpoints spin() polls is observed, not demanded (the property "
     "text only fixes the source half of spin)",
-    "hub.getData returns None when the receive yielded no data; its return value for a message is not checked "
-    "(the docstring promises (data, success), the code returns data)",
+    "the return value of hub.getData is not checked (the property text does not constrain it; the docstring "
+    "promises (data, success), the code returns data)",
     "an empty string is a message (only None means 'no data')",
     "UDPObject.closeCom (shutdown on an unconnected datagram socket -> ENOTCONN on Linux) is outside this "
     "property: UDP endpoints are never closed through the library, sockets are closed directly at teardown",
@@ -571,8 +589,8 @@ def execute(n_ep, opens, ops, rig):
                 if rig.synchronous and fed is not None and model.open[a] and not rx:
                     raise Violation("op %d %r: message %r was waiting on the open endpoint %r but getData(%r) did "
                                     "not receive it" % (idx, op, fed, a, a))
-                if (not rx or rx[0][2] is None) and r is not None:
-                    raise Violation("op %d %r: the receive yielded no data but getData returned %r" % (idx, op, r))
+                # the return value of hub.getData is not part of the property text (neither for a message nor for
+                # "no data"): it is deliberately not checked
             elif kind == "spin":
                 spin_k = op[1]
                 if spin_k < 0:
